@@ -262,7 +262,7 @@ def run(tier, seed, acc, procs=None):
              ('t_one', {'seed': seed, 'case': {'kind': 'ortho', 'jmax': jval}})]
     for lo in range(1, jval + 1, 6):
         tasks.append(('t_values', {'seed': seed, 'lo': lo, 'hi': min(lo + 6, jval + 1)}))
-    shapes = [(6, 6), (7, 7), (6, 7), (7, 6)] + ([(5, 8), (8, 5)] if tier != 'quick' else [])
+    shapes = [(6, 6), (7, 7), (6, 7), (7, 6), (5, 8), (8, 6)] + ([(8, 5), (6, 10)] if tier != 'quick' else [])
     for s in shapes:
         tasks.append(('t_coords', {'seed': seed, 'shape': s}))
     acc.states += 1
